@@ -53,7 +53,7 @@ def _one(ctx, i, rep=None):
     if r.random() < 0.25:
         cfg['ws'] = r.choice([' ', ' \t', ' \n'])
     try:
-        mm = metamodel_from_str(text, **cfg)
+        mm = P.make_mm(text, **cfg)
     except TextXError as e:
         ctx.violation(None, 'generated grammar rejected: %s' % str(e)[:100], {'grammar': text}, rep)
         return
